@@ -1103,7 +1103,9 @@ class TermCanvas(Canvas):
                     idx += 2
                 elif idx + 4 < len(attrs) and attrs[idx + 1] == 2:
                     # 24 bit color specification
-                    color = (attrs[idx + 2] << 16) + (attrs[idx + 3] << 8) + attrs[idx + 4]
+                    # components are limited to 8 bits each, clamp out of range values
+                    red, green, blue = (min(component, 255) for component in attrs[idx + 2 : idx + 5])
+                    color = (red << 16) + (green << 8) + blue
                     colors = 2**24
                     if attr == 38:
                         fg = color
